@@ -208,16 +208,19 @@ pub struct Bounds {
     /// longer inputs get every cut set with at most this many cuts
     pub max_cuts: usize,
     pub pend_bound: usize,
+    /// inputs longer than this get at most one Pending (the second deviation level is the costly one)
+    pub pend2_len: usize,
 }
 
 fn sweep(ctx: &Ctx, ln: u32, sp: &Space, cfgs: &[u8], b: &Bounds, max_total_len: usize) {
     let seed = ctx.seed;
     let mut desc = sp.desc.clone();
     desc["schedules"] = json!(format!(
-        "all cut sets for len<={}; <={} cuts beyond; piece sizes 1,2,3,7; async: + every placement of <={} Pending on piece sizes 1-3 and <=1-cut schedules",
-        b.all_cuts_len, b.max_cuts, b.pend_bound
+        "all cut sets for len<={}; <={} cuts beyond; piece sizes 1,2,3,7; async: + every placement of <={} Pending (inputs longer than {} bytes: <=1) on piece sizes 1-3 and <=1-cut schedules",
+        b.all_cuts_len, b.max_cuts, b.pend_bound, b.pend2_len
     ));
     let chk = Checker { seed, ln, cfgs, pend_bound: b.pend_bound };
+    let chk1 = Checker { seed, ln, cfgs, pend_bound: b.pend_bound.min(1) };
     ctx.layer(&sp.name, ln, sp.total, desc, |i, acc| {
         let mut input = Vec::new();
         sp.get(i, &mut input);
@@ -236,6 +239,7 @@ fn sweep(ctx: &Ctx, ln: u32, sp: &Space, cfgs: &[u8], b: &Bounds, max_total_len:
             .collect();
         let (spans, off) = markup_spans(&input);
         let n = input.len();
+        let chk = if n > b.pend2_len { &chk1 } else { &chk };
         // uniform pieces
         for p in [1usize, 2, 3, 7] {
             chk.one(acc, i, &input, &refs, &spans, &Script::pieces(p), p <= 3, off);
@@ -543,7 +547,11 @@ pub fn run(ctx: &Ctx) {
     let full = cfg!(feature = "full");
     // neutral, default, everything on, and text trimming alone (skip_whitespace lives in the source)
     let cfgs = [NEUTRAL, DEFAULT, 127u8, NEUTRAL | TRIM_START | TRIM_END];
-    let b = Bounds { all_cuts_len: t.pick(8, 11), max_cuts: t.pick(2, 3), pend_bound: t.pick(1, 2) };
+    let b = Bounds { all_cuts_len: t.pick(8, 11), max_cuts: t.pick(2, 3), pend_bound: t.pick(1, 2), pend2_len: 5 };
+    // the long-input layers of the thorough tier: every cut set up to 9 bytes, <=2 cuts beyond
+    let b_long = Bounds { all_cuts_len: t.pick(8, 9), max_cuts: 2, pend_bound: 1, pend2_len: 0 };
+    // one level deeper with the light schedule set (uniform pieces, every single cut, <=1 Pending)
+    let b_light = Bounds { all_cuts_len: 0, max_cuts: 1, pend_bound: 1, pend2_len: 0 };
     if !full {
         // Init step differs between builds (remove_utf8_bom vs detect_encoding)
         sweep(ctx, 0, &raw("A.raw(min)", SIGMA_M, t.pick(4, 5)), &cfgs, &b, 64);
@@ -551,10 +559,14 @@ pub fn run(ctx: &Ctx) {
         return;
     }
     sweep(ctx, 0, &raw("A.raw", SIGMA_M, t.pick(5, 6)), &cfgs, &b, 64);
-    sweep(ctx, 1, &atoms("C.atoms", ATOMS_C, t.pick(4, 5)), &cfgs, &b, t.pick(18, 24));
+    sweep(ctx, 1, &atoms("C.atoms", ATOMS_C, 4), &cfgs, &b, t.pick(18, 24));
     let mut ln = 2;
+    if t.pick(false, true) {
+        sweep(ctx, ln, &atoms("C.atoms5.light", ATOMS_C, 5), &cfgs, &b_light, 30);
+        ln += 1;
+    }
     for sp in contexts(|m| t.pick(m.min(4), m.min(6)), true) {
-        sweep(ctx, ln, &sp, &cfgs, &b, 24);
+        sweep(ctx, ln, &sp, &cfgs, &b_long, 24);
         ln += 1;
     }
     sweep(ctx, ln, &context("Init.bom", &[b"", b"\xEF\xBB", b"\xEF\xBB\xBF", b"\xEF\xBB\xBF\xEF\xBB\xBF"], b"<?xml >a", t.pick(4, 5), &[b""], false), &cfgs, &b, 64);
